@@ -139,7 +139,7 @@ def run_cases(mod, cases, stats, collect_cover=True):
             kept = out["kept_per_key"].get(k, 0)
             stats.count("violating_observations.%s" % k)
             if kept < (300 if k == "<unclassified>" else 5):
-                out["violations"].append({"case": jsonable(case), **jsonable(v)})
+                out["violations"].append({"case": jsonable(case), "hashseed": os.environ.get("PYTHONHASHSEED", ""), **jsonable(v)})
                 out["kept_per_key"][k] = kept + 1
         if ctx.is_nontrivial:
             out["fingerprints"].append(ctx.fingerprint)
@@ -208,6 +208,10 @@ def main(argv=None):
 def replay_main(args):
     with open(args.replay) as f:
         rep = json.load(f)
+    want = str(rep.get("hashseed") or "0")
+    if os.environ.get("PYTHONHASHSEED", "") != want:
+        # the string-hash seed of the worker that observed the violation is part of the replay
+        os.execve(sys.executable, [sys.executable, "-m", "vmon.runner"] + sys.argv[1:], dict(os.environ, PYTHONHASHSEED=want))
     mod = load_check(rep["property"])
     stats = Stats()
     out = run_cases(mod, [rep["case"]], stats, collect_cover=False)
@@ -245,7 +249,10 @@ def parent_main(args):
         log = open(os.path.join(work, "shard%d.log" % i), "w")
         cmd = [sys.executable, "-m", "vmon.runner", prop, "--worker", "--tier", args.tier, "--seed", str(args.seed),
                "--shard", "%d/%d" % (i, jobs), "--out", out]
-        procs.append((subprocess.Popen(cmd, cwd=VERIF, env=env, stdout=log, stderr=subprocess.STDOUT), out, log))
+        # every worker process runs under another string-hash seed (the order in which sets and dicts of strings iterate is part of
+        # the environment, not of the input); the shard -> seed assignment is fixed, replays restore the seed of the failing shard
+        env_i = dict(env, PYTHONHASHSEED=str(i % 8) if os.environ.get("VMON_HASHSEEDS", "vary") == "vary" else env.get("PYTHONHASHSEED", "0"))
+        procs.append((subprocess.Popen(cmd, cwd=VERIF, env=env_i, stdout=log, stderr=subprocess.STDOUT), out, log))
     inconclusive = []
     results = []
     deadline = t0 + budget
@@ -320,7 +327,7 @@ def parent_main(args):
         for j, v in enumerate(new[:MAX_REPLAYS]):
             path = os.path.join(VERIF, "replays", "%s-seed%d-%s-%d.json" % (prop, args.seed, args.tier, j))
             with open(path, "w") as f:
-                json.dump({"property": prop, "tier": args.tier, "seed": args.seed, "case": v["case"],
+                json.dump({"property": prop, "tier": args.tier, "seed": args.seed, "case": v["case"], "hashseed": v.get("hashseed", "0"),
                            "key": v.get("key"), "reason": v["reason"], "witness": v.get("witness")}, f, indent=1)
             replay_paths.append(path)
 
